@@ -161,6 +161,38 @@ Theorem C13_decryptor_ignores_empty_pdu :
     attempt E ds (h :: 0%N :: rest) = (ds, Ok None).
 Proof. exact attempt_empty_pdu. Qed.
 
+(** The stack (LinkLayer of whad/ble/stack/llm): for ALL sequences of encryption start
+    procedures run one after the other — any number, same or different connection handles,
+    central (start_encryption, LL_ENC_RSP, LL_START_ENC_REQ) or peripheral (LL_ENC_REQ) side,
+    any LTK/SKD/IV/rand/ediv, from ANY link-layer state in which the handles are registered —
+    the k-th [set_encryption] handed to the PHY carries exactly e(LTK, SKDs || SKDm),
+    IVm || IVs, LTK, rand, ediv of the k-th procedure: each procedure's session material
+    depends only on its own inputs (no state of an earlier procedure survives into it).
+    [_partial]: procedures whose PDUs interleave across handles are excluded, see below. *)
+Theorem C13_stack_procedures_partial :
+  forall E (procs : list proc) (st : lls),
+    Forall (fun p => proc_wfb p = true /\ registered (p_h p) st = true) procs ->
+    set_enc_only (snd (ll_run E st (concat (map proc_events procs)))) = map (proc_expected E) procs.
+Proof. exact stack_procedures. Qed.
+
+(** Central and peripheral side of one procedure hand the same session key and IV to their PHY. *)
+Theorem C13_stack_both_roles_same_key :
+  forall E (p q : proc) (st st' : lls),
+    proc_wfb p = true -> registered (p_h p) st = true -> registered (p_h q) st' = true ->
+    p_central p = true -> p_central q = false ->
+    p_h q = p_h p -> p_key q = p_key p -> p_rand q = p_rand p -> p_ediv q = p_ediv p ->
+    p_skdm q = p_skdm p -> p_ivm q = p_ivm p -> p_skds q = p_skds p -> p_ivs q = p_ivs p ->
+    set_enc_only (snd (ll_run E st (proc_events p))) = set_enc_only (snd (ll_run E st' (proc_events q))).
+Proof. exact stack_both_roles. Qed.
+
+(** Full statement incl. interleaving of two connections' procedures: REFUTED by the faithful
+    model — the stack keeps one crypto manager for all handles (known finding
+    llcm-shared-across-connection-handles, witness replayed on the implementation each run). *)
+Definition C13_stack_interleaved_statement : Prop := stack_interleaved_statement.
+
+Theorem C13_stack_interleaved_refuted : ~ C13_stack_interleaved_statement.
+Proof. exact stack_interleaved_refuted. Qed.
+
 (** "Changing ANY protected bit makes decryption fail", for every block function: not a
     theorem. It is false for some [E] (below: the constant function, for which every MIC is
     0000), and for AES it is a statement about the collision probability of a 32-bit MAC,
